@@ -111,6 +111,30 @@ pub fn execute(check: &str, plan: Plan, want_log: bool) -> RunResult {
     let model = Model::build(&events);
     let ctx = Ctx::new(&plan_for_result, &model);
     let all = oracle::evaluate(&ctx);
+    let mut all = all;
+    // Lock-order inversions: two code paths that nest the same two locks in opposite orders can
+    // deadlock two threads of the multi-threaded runtime (a request then never terminates), even
+    // though a single-threaded run never blocks.
+    {
+        let st = hooks::HOOKS.st.lock().unwrap();
+        let edges: Vec<_> = st.lock_edges.iter().cloned().collect();
+        for (a, ax, b, bx) in edges.iter() {
+            if a == b {
+                all.push(Violation { rule: "C07.lock_order".into(), key: format!("nested:{a}"), detail: format!("a lock of class {a} is taken while another lock of the same class is held") });
+                continue;
+            }
+            for (c, cx, d, dx) in edges.iter() {
+                // (hold a, take b) and (hold c == b, take d == a)
+                if c == b && d == a && a < b && (*bx || *cx) && (*ax || *dx) {
+                    all.push(Violation {
+                        rule: "C07.lock_order".into(),
+                        key: format!("inversion:{a}<->{b}"),
+                        detail: format!("lock-order inversion: one path takes {b} while holding {a}, another takes {a} while holding {b}; on the multi-threaded runtime two requests on these paths block each other forever"),
+                    });
+                }
+            }
+        }
+    }
     let facts = oracle::facts(&ctx);
     let def = checks::find(check);
     let (claimed, other): (Vec<Violation>, Vec<Violation>) = all.into_iter().partition(|v| def.map(|d| checks::rule_claimed(d, &v.rule)).unwrap_or(true));
